@@ -547,6 +547,9 @@ def run(ctx):
     # options switched off must stay off: the property table's semantics (C18.prim), adopted
     from .c18 import rule_prim
     ctx.guarded("C16.iface", rule_prim, ctx, "C16.iface", ("prop",))
+    # 'the application is told that the connection went down': no layer's state-event callback swallows the event
+    from .c18 import rule_callbacks
+    ctx.guarded("C16.iface", rule_callbacks, ctx, "C16.iface")
     # a failed handshake must reach the finish callback so that the failure is delivered and the connection closed (C04.finish), adopted
     from . import c04
     from ..report import Ctx
